@@ -1484,6 +1484,16 @@ class Interp:
         if isinstance(v, Vec) and isinstance(obj, Ref):
             self.assign(obj, Vec(), e)
             return
+        if isinstance(obj, Ref) and obj.kind == "rows":
+            # a fixed number of rows of an array (middleRows<k>(r).setZero()): each of them is assigned the zero vector
+            self.assign(obj, BlockVec(obj.count, [Vec() for _ in range(obj.count)]), e)
+            return
+        if isinstance(obj, Ref) and obj.kind == "rowrange":
+            self.assign(obj, RangeVal(obj.count, Vec()), e)
+            return
+        if isinstance(obj, Ref) and obj.kind == "row":
+            self.assign(obj, Vec(), e)
+            return
         raise Unsupported("setZero on %s" % type(v).__name__)
 
     def resize(self, obj, args, e):
